@@ -198,6 +198,17 @@ pub fn initial_images(g: &Geo, which: &[&str]) -> Vec<ImageSet> {
                 s.kinds[2] = GKind::Data;
                 out.push(from_specs(&format!("{}-zero", g.name), "zero", vec![s]));
             }
+            "zero-prealloc" => {
+                // zero-flagged clusters that keep their host cluster, next to each other: a
+                // multi-cluster write over them needs no new allocation
+                let mut s = base(0xA00000);
+                s.kinds = vec![GKind::Unalloc; ncl];
+                s.kinds[0] = GKind::ZeroPrealloc;
+                s.kinds[1] = GKind::ZeroPrealloc;
+                s.kinds[2] = GKind::Data;
+                s.kinds[3] = GKind::Zero;
+                out.push(from_specs(&format!("{}-zero-prealloc", g.name), "zero", vec![s]));
+            }
             "compressed" => {
                 let mut s = base(0xB00000);
                 s.kinds = vec![GKind::Unalloc; ncl];
